@@ -443,6 +443,9 @@ fn render_desc(d: &Option<String>, indent: &str, out: &mut String) {
 fn render_dir(d: &Option<String>, m: &SchemaModel) -> String {
     match d {
         None => String::new(),
+        // the model plugin's directive: with a TypeScript type on objects, bare on fields
+        Some(n) if n == "model:object" => " @model(type: \"{ id: string }\")".to_string(),
+        Some(n) if n == "model" => " @model".to_string(),
         Some(n) => {
             let has_arg = m.directives.iter().find(|x| &x.name == n).is_some_and(|x| x.arg.is_some());
             if has_arg { format!(" @{n}(label: \"x\")") } else { format!(" @{n}") }
